@@ -1325,6 +1325,14 @@ def mutation_steps(rng, op, a, c):
                           if 'keybindings' in s[0]]
             elif base == 'path' and c.path is not None:
                 steps += kb_steps(rng, c.path, K + '.path')
+                # CIMInstance.copy() lists the property and qualifier objects
+                # as the only shared ones, so reference objects in the
+                # keybindings of its path belong to the copy as well
+                for v in c.path.keybindings.values():
+                    if isinstance(v, CIMInstanceName):
+                        lab = K + '.path{reference-key}'   # one mechanism
+                        steps += [(lab, s_[1])
+                                  for s_ in kb_steps(rng, v, lab)[:3]]
             elif base == 'cpath' and c.path is not None:
                 for at, new in (('classname', 'ChangedClass'),
                                 ('host', 'changed.host'),
